@@ -271,7 +271,7 @@ impl Prop for C01 {
         "each evaluation = one seeded sample set (mutation-derived samples, IUPAC codes, N runs, reverse complements, duplicated/missing/extra/reordered contigs) rendered as FASTA files (random wrapping/case/CRLF/gzip) on the sim disk, compressed by the real create driver with seeded parameters, thread count, queue capacity, buffer size and benign I/O faults under one seeded schedule, then reopened by a fresh reader and compared with the model sample by sample. distinct_nontrivial = distinct (schedule trace, event log) digests among runs with >=2 tasks and >=1 preemption."
     }
     fn runs(&self, tier: Tier) -> u64 {
-        match tier { Tier::Quick => 30_000, Tier::Thorough => 2_000_000 }
+        match tier { Tier::Quick => 30_000, Tier::Thorough => 1_200_000 }
     }
     fn run_chunk(&self, ctx: &Ctx, indices: &[u64]) -> Vec<RunReport> {
         // every fourth run goes through the library API instead of the CLI driver
@@ -318,7 +318,7 @@ impl Prop for C05 {
         "each evaluation = one seeded create run (1..8 workers + producer as shuttle tasks, queue capacities down to just above the largest contig, pack sizes 2..50 so that sync rounds are frequent, multi- and single-file drivers) under one seeded schedule; a run must end with create returned and every worker exited: shuttle's no-runnable-task detection = deadlock, step budget = no progress; the event log of every Ok run is checked for round accounting (tokens per round, barrier order 1..4, admitted = taken, one exit per worker after close). distinct_nontrivial = distinct (schedule trace, event log) digests among runs with >=2 tasks and >=1 preemption."
     }
     fn runs(&self, tier: Tier) -> u64 {
-        match tier { Tier::Quick => 40_000, Tier::Thorough => 3_000_000 }
+        match tier { Tier::Quick => 40_000, Tier::Thorough => 2_000_000 }
     }
     fn run_chunk(&self, ctx: &Ctx, indices: &[u64]) -> Vec<RunReport> {
         // every third run drives the library API (push / drain / sync_and_flush at generated
